@@ -120,7 +120,7 @@ def reference_fns(tag):
 def inlinable(db, caller, g, mode="cons"):
     if g is None or g.id == caller.id:
         return False
-    if g.raw.get("is_async"):
+    if g.raw.get("is_async") and os.environ.get("VERIF_NO_ASYNC_INLINE"):
         return False
     if mode == "new":
         # exactly the helpers that did not exist on the reference tree: what a later change extracted
@@ -128,7 +128,7 @@ def inlinable(db, caller, g, mode="cons"):
         if not ref or g.id in ref:
             return False
         return g.kind in ("fn", "method") and g.crate == caller.crate and not (g.raw.get("trait_item") or g.raw.get("in_trait")) and "::tests::" not in g.id
-    if mode.startswith("cons") and touches_primitives(g):
+    if mode.startswith("cons") and (touches_primitives(g) or g.raw.get("is_async")):
         return False
     if g.kind not in ("fn", "method"):
         return False
@@ -207,6 +207,186 @@ def _map_term(t, lb, bb, pb):
     return t
 
 
+
+def _uses_of_local(blocks, l):
+    """number of operand / place uses of local l (reads), not counting whole-local drops and storage markers"""
+    n = 0
+    def op_uses(o):
+        return 1 if isinstance(o, dict) and o.get("k") in ("copy", "move") and o.get("p") and o["p"][0] == l else 0
+    for b in blocks:
+        for st in b["stmts"]:
+            if st["k"] != "assign":
+                continue
+            rv = st["rv"]
+            for k in ("op", "a", "b"):
+                if isinstance(rv.get(k), dict):
+                    n += op_uses(rv[k])
+            for o in rv.get("ops", []):
+                n += op_uses(o)
+            if isinstance(rv.get("p"), list) and rv["p"][0] == l:
+                n += 1
+            if st["lhs"][0] == l and st["lhs"][1]:
+                n += 1
+        t = b["term"]
+        for k in ("discr", "cond", "value", "func"):
+            if isinstance(t.get(k), dict):
+                n += op_uses(t[k])
+        for o in t.get("args", []):
+            n += op_uses(o)
+    return n
+
+
+def _fn_def(t):
+    fnc = t.get("func") or {}
+    info = fnc.get("fn") if fnc.get("k") == "const" else None
+    return (info or {}).get("def") or "", (info or {}).get("resolved") or ""
+
+
+def async_site(blocks, bi, g, originals):
+    """The call in block `bi` creates the future of the async fn `g` and the caller awaits it right away
+    (`helper(args).await`): returns the description of the await (poll block, switch block, ready target, coroutine body,
+    upvar -> argument map) or None if the future is used in any other way (wrapped in a timeout, stored, spawned, ..)."""
+    t = blocks[bi]["term"]
+    d0, dproj = t["dest"]
+    if dproj or t.get("target") is None:
+        return None
+    gb = g.raw["blocks"]
+    if not gb or not gb[0]["stmts"]:
+        return None
+    cor = None
+    for st in gb[0]["stmts"]:
+        if st["k"] == "assign" and st["lhs"] == [0, []] and st["rv"]["k"] == "agg" and st["rv"].get("kind") == "coroutine":
+            cor = st["rv"]
+    if cor is None or len([b for b in gb if not b.get("cleanup") and b["term"]["k"] == "call"]) > 0:
+        return None
+    q = originals.get(cor["def"])
+    if q is None or q.kind != "coroutine":
+        return None
+    upmap = []
+    for o in cor["ops"]:
+        if o.get("k") in ("copy", "move") and o.get("p") and not o["p"][1] and 1 <= o["p"][0] <= g.arg_count:
+            upmap.append(o["p"][0])
+        else:
+            return None
+    if _uses_of_local(blocks, d0) != 1:
+        return None
+    # walk the straight line from the call to the poll
+    cur = t["target"]
+    seen_into = False
+    poll_bb = None
+    for _ in range(16):
+        b = blocks[cur]
+        tt = b["term"]
+        if tt["k"] == "goto":
+            cur = tt["target"]
+            continue
+        if tt["k"] != "call" or tt.get("target") is None:
+            return None
+        d, r = _fn_def(tt)
+        if d.endswith("IntoFuture::into_future"):
+            a0 = tt["args"][0] if tt["args"] else {}
+            if not (a0.get("k") == "move" and a0.get("p") == [d0, []]):
+                return None
+            seen_into = True
+        elif re.search(r"(^|::)Future::poll$", d):
+            if not seen_into:
+                return None
+            poll_bb = cur
+            break
+        elif re.search(r"Pin::<Ptr>::new_unchecked$|future::get_context$|Pin::<Ptr>::new$", d):
+            pass
+        else:
+            return None
+        cur = tt["target"]
+    if poll_bb is None:
+        return None
+    pt = blocks[poll_bb]["term"]
+    rloc, rproj = pt["dest"]
+    if rproj:
+        return None
+    sb = pt["target"]
+    st_ = blocks[sb]["term"]
+    if st_["k"] != "switch":
+        return None
+    ready = None
+    for s_ in blocks[sb]["stmts"]:
+        if s_["k"] == "assign" and s_["rv"]["k"] == "disc" and s_["rv"]["p"] == [rloc, []]:
+            vmap = {v[0]: v[1] for v in s_["rv"].get("variants", [])}
+            rv_ = vmap.get("Ready")
+            for val, tgt in st_["targets"]:
+                if val == rv_:
+                    ready = tgt
+    if ready is None:
+        return None
+    return {"poll_bb": poll_bb, "switch_bb": sb, "ready": ready, "result": rloc, "q": q, "upmap": upmap}
+
+
+def splice_async(raw, bi, g, site):
+    """replace `helper(args).await` by the helper's coroutine body: arguments are bound to fresh locals standing for the
+    coroutine's captured variables, the poll becomes a jump to the body's entry, its yields stay yields of the caller, its
+    return becomes `result = Poll::Ready(value)` followed by the caller's Ready continuation."""
+    blocks = raw["blocks"]
+    q = site["q"]
+    t = blocks[bi]["term"]
+    lb = len(raw["locals"])
+    bbase = len(blocks)
+    pb = len(raw.get("promoted") or [])
+    raw["locals"].extend(copy.deepcopy(q.raw["locals"]))
+    # one fresh local per captured variable
+    ups = []
+    for k, argl in enumerate(site["upmap"]):
+        raw["locals"].append(copy.deepcopy(g.raw["locals"][argl]))
+        ups.append(len(raw["locals"]) - 1)
+    if q.raw.get("promoted"):
+        raw.setdefault("promoted", [])
+        raw["promoted"].extend(copy.deepcopy(q.raw["promoted"]))
+    def fix_place(pl):
+        # pl is already renumbered: local lb+1 is the coroutine's environment
+        if pl[0] == lb + 1:
+            pr = list(pl[1])
+            while pr and pr[0] == "*":
+                pr.pop(0)
+            if pr and pr[0].startswith("f:"):
+                k = int(pr[0].split(":")[1])
+                if k < len(ups):
+                    return [ups[k], pr[1:]]
+        return pl
+    def fix(x):
+        if isinstance(x, dict):
+            out = {}
+            for k, v in x.items():
+                if k in ("p", "lhs", "dest", "resume_arg") and isinstance(v, list) and len(v) == 2 and isinstance(v[0], int):
+                    out[k] = fix_place(v)
+                else:
+                    out[k] = fix(v)
+            return out
+        if isinstance(x, list):
+            return [fix(v) for v in x]
+        return x
+    for d in q.raw.get("debug", []):
+        raw["debug"].append({"name": d["name"], "p": fix_place(_map_place(d["p"], lb))})
+    for qb in q.raw["blocks"]:
+        nb = {"cleanup": qb.get("cleanup", False), "stmts": [fix(_map_stmt(s_, lb, pb)) for s_ in qb["stmts"] if s_["k"] not in ("live", "dead")], "inl": g.id}
+        qt = qb["term"]
+        if qt["k"] == "return":
+            nb["stmts"].append({"k": "assign", "l": qt.get("l"), "lhs": [site["result"], []], "inl": g.id,
+                                "rv": {"k": "agg", "kind": "adt", "adt": "std::task::Poll", "variant": "Ready", "vidx": 0, "fields": ["0"], "ops": [{"k": "move", "p": [lb, []]}]}})
+            nb["term"] = {"k": "goto", "target": site["switch_bb"], "l": qt.get("l")}
+        else:
+            nb["term"] = fix(_map_term(qt, lb, bbase, pb))
+        blocks.append(nb)
+    # the call site binds the arguments
+    b = blocks[bi]
+    for k, argl in enumerate(site["upmap"]):
+        b["stmts"].append({"k": "assign", "l": t.get("l"), "lhs": [ups[k], []], "rv": {"k": "use", "op": t["args"][argl - 1]}, "inl": g.id})
+    b["term"] = {"k": "goto", "target": t["target"], "l": t.get("l"), "inl_call": g.id}
+    # the poll runs the body; afterwards the result is Ready
+    pbk = blocks[site["poll_bb"]]
+    pbk["term"] = {"k": "goto", "target": bbase, "l": pbk["term"].get("l"), "inl_await": g.id}
+    sbk = blocks[site["switch_bb"]]
+    sbk["term"] = {"k": "goto", "target": site["ready"], "l": sbk["term"].get("l"), "inl_ready": g.id}
+
+
 def inline_body(db, f, originals, stats=None, mode="cons"):
     """returns a new raw dict for f with inlinable local calls spliced in, or None if nothing was inlined"""
     raw = None
@@ -232,15 +412,31 @@ def inline_body(db, f, originals, stats=None, mode="cons"):
                 continue
             if len(t["args"]) != g.arg_count:
                 continue
-            todo.append((bi, g))
+            if g.raw.get("is_async"):
+                site = async_site(blocks, bi, g, originals)
+                if site is None:
+                    continue
+                todo.append((bi, g, site))
+                continue
+            todo.append((bi, g, None))
         if not todo:
             break
         if raw is None:
             raw = copy.deepcopy(f.raw)
             blocks = raw["blocks"]
-        if len(blocks) + sum(len(g.raw["blocks"]) for _, g in todo) > MAX_BLOCKS:
+        if len(blocks) + sum(len((site["q"] if site else g).raw["blocks"]) for _, g, site in todo) > MAX_BLOCKS:
             break
-        for bi, g in todo:
+        for bi, g, site in todo:
+            if site is not None:
+                # re-derive the await on the current blocks (an earlier splice of this round may have rewritten them)
+                site = async_site(blocks, bi, g, originals) if blocks[bi]["term"]["k"] == "call" else None
+                if site is None:
+                    continue
+                splice_async(raw, bi, g, site)
+                changed = True
+                if stats is not None:
+                    stats.append((f.id, g.id))
+                continue
             b = blocks[bi]
             t = b["term"]
             lb = len(raw["locals"])
